@@ -219,3 +219,23 @@ K('C08.h.locname', property='C08', engine='symex', harness='C09/locid.cpp', entr
          'static object ELoc::UNKNOWN: field _value written by the harness (-1)',
          'strlen, memcmp: byte loops; tolower: ASCII; strtol / atoi: C-locale model',
          'std::string::operator=(const char*): characters written through the data pointer, length set', 'messerr: empty'])
+
+
+# ---- C08.g (builder3): IFPEN grid exchange format, geometry round trip through a typed tape of lines
+_IFP_TUS = ['src/OutputFormat/GridIfpEn.cpp', 'src/OutputFormat/AOF.cpp'] + _GRID_TUS
+for _nx0, _nx1, _tiers in ((3, 2, ('quick', 'thorough')), (1, 4, ('thorough',))):
+    K('C08.g.ifpen.%d%d' % (_nx0, _nx1), property='C08', engine='symex', harness='C08/ifpen.cpp', entry='k_ifpen_geometry', tus=_IFP_TUS,
+      defines={'all': {'VF_NX0': _nx0, 'VF_NX1': _nx1}}, tiers=_tiers, symex=_TRIG,
+      bounds={'quick': '2-D grid of %d x %d nodes; origin, meshes dx, dy > 0 (dx != dy allowed) and rotation angle arbitrary reals; no attribute column exported' % (_nx0, _nx1)},
+      timeout_ms={'quick': 60000, 'thorough': 300000}, validate={'quick': 20, 'thorough': 40}, validate_doubles='dyadic',
+      what='GridIfpEn::writeInFile -> GridIfpEn::readGridFromFile (with DbGrid::gridDefine, getNXsExt, getDX, getX0, getAngles on a really constructed source grid): every header line is consumed in order, '
+           'no value is decoded from a line of another label / type; the grid handed to DbGrid::reset has COLUMN_COUNT / COLUMN_DISTANCE / X_ORIGIN in dimension 0, ROW_COUNT / ROW_DISTANCE / Y_ORIGIN in '
+           'dimension 1, one unit layer at 0 in dimension 2, the first rotation angle, no value and no name',
+      out='the text layer (stringstream formatting: 6 significant digits; sscanf; the weak label test strcmp(line, label) < 0 is kept as it is); the FILE; the value section (attributes, FLOAT_NULL_VALUE '
+          'convention, ordering of several attributes); the construction of the reloaded DbGrid from the recorded arguments (DbGrid::reset: C16.f, C07); 3-D source grids (LAYER distance / Z origin are not in the format)',
+      assumptions=['DbGrid source built by the real default constructor + gridDefine; cos/sin uninterpreted; GridIfpEn object is raw storage (_db, _dbgrid, _cols = empty, _file = null)',
+                   'a file is the sequence of lines written: (mode, label, integer value, real value) cells'],
+      stubs=['GridIfpEn::_writeLine -> pushes one typed line; GridIfpEn::_readLine -> pops one: refuses a line whose label compares below the expected one (as the real strcmp test), decodes a value only '
+             'from a line written with the same label and a compatible mode (integer line read as real allowed), anything else is a counted mismatch',
+             'AOF::_fileWriteOpen / _fileReadOpen -> 0, AOF::_fileClose -> nothing', 'DbGrid::reset -> records its arguments, returns 0', 'generateMultipleNames -> vector of empty names',
+             'Db::_clear: empty (locator tables not built: the ELoc enumeration needs static constructors)', 'messerr / message -> empty'])
